@@ -130,6 +130,21 @@ CHECKS = {
         design_ref="DESIGN.md section 4, C15",
         note="Trusted base: CrossHair 0.0.110, z3 5.1, the plugin's struct model. Member ids/topic names come from finite pools; sizes beyond the stated bound are outside the claim.",
     ),
+    "C18": dict(
+        category="other", engine="astbv",
+        technique="AST -> z3 bit-vector translation of pure_murmur2 (per-step lemmas cut at the loop back-edge, no-overflow side obligations, index traces) proved equal to Java's murmur2; CrossHair/z3 for key coercion, membership and round-robin fairness",
+        text="Bounded SMT verification. Engine C walks the AST of the current pure_murmur2 source over 72-bit vectors and proves, for an "
+             "arbitrary 32-bit running hash and arbitrary bytes, that initialisation, one block step (at several iteration indexes), and "
+             "tail+avalanche for every length class equal the Java client's Utils.murmur2 transcribed in 32-bit arithmetic; every * + << "
+             "carries a no-overflow side obligation so the bit-vector run equals Python's unbounded integers; per-length index traces compose "
+             "the lemmas for every length up to the bound; the partition index is shown to be Java's toPositive(h) % n and in range for all "
+             "n < 2^31. The translator is validated on every run against the real function and a plain-int Java reference on fixed and random "
+             "vectors. Engine A proves on symbolic keys/lists that bytes, bytearray and text forms agree, the result is the list member the "
+             "hash selects, and that RoundRobinPartitioner hits each of n symbolic distinct partitions exactly k times in any k*n window from "
+             "any start, also after a list change.",
+        design_ref="DESIGN.md section 4, C18",
+        note="Trusted base: z3 5.1 (diffed against the z3 4.8.12 binary; cvc5 does not answer the 72-bit multiplication lemma within the cap), the AST evaluator vlib/astbv/eval.py, the Java transcription, CrossHair 0.0.110 + plugin. The C murmurhash2 extension is not installed and outside the claim.",
+    ),
 }
 
 NOT_YET = "check not built yet in this session; see DESIGN.md section 4 for the planned solver-based harness"
